@@ -1207,6 +1207,10 @@ package fosite
 //@   modifies everything
 //@   assert @call(Get)#1 [C15.jwks-cache-keyed-by-location] cacheKey == defaultJWKSFetcherStrategyCachePrefix + location
 //@   assert @call(SetWithTTL)#1 [C15.jwks-cache-keyed-by-location] cacheKey == defaultJWKSFetcherStrategyCachePrefix + location
+// A key set handed out once is shared by every request that resolved the same location: a refresh publishes a NEW object (in the
+// cache and to the caller) and never rewrites the one other requests may still be reading.
+//@   assert @call(SetWithTTL)#1 [C19.refresh-publishes-a-new-key-set] fresh($arg2)
+//@   ensures [C19.refresh-publishes-a-new-key-set] ignoreCache && err == nil ==> fresh(result)
 // the same two facts carry C13 (a request object is verified with the key set of ITS client's jwks_uri, not of a look-alike URI)
 //@   assert @call(Get)#1 [C13.request-object-keys-of-this-client] cacheKey == defaultJWKSFetcherStrategyCachePrefix + location
 //@   assert @call(SetWithTTL)#1 [C13.request-object-keys-of-this-client] cacheKey == defaultJWKSFetcherStrategyCachePrefix + location
